@@ -11,11 +11,11 @@ open Dds.CF32
 
 /-- `p ≤ β = T·2^23 + F` (a pattern in the binade of exponent field `T`); `N` is the significand
 of `β + 0.5` in the same binade (`hN`), `n` bounds its integer part (`hn1`) -/
-theorem castAddHalf_le (p T F N n : Nat) (hp : p ≤ T * 2 ^ 23 + F) (hF : F < 2 ^ 23)
+theorem castAddHalf_le (M p T F N n : Nat) (hp : p ≤ T * 2 ^ 23 + F) (hF : F < 2 ^ 23)
     (hT1 : 127 ≤ T) (hT2 : T ≤ 148) (hN1 : 2 ^ 23 ≤ N) (hN2 : N < 2 ^ 24)
     (hN : (2 ^ 23 + F) * 2 ^ (T - 126) + 2 ^ 23 ≤ N * 2 ^ (T - 126))
     (hn1 : N >>> (150 - T) ≤ n) (hn2 : 2 ^ (T - 127) ≤ n) :
-    toNatSat (fadd p half) (2 ^ 32 - 1) ≤ n := by
+    toNatSat (fadd p half) M ≤ n := by
   have hTle : T * 2 ^ 23 ≤ 148 * 2 ^ 23 := Nat.mul_le_mul_right _ hT2
   have hpinf : p < posInf := by
     have : 148 * 2 ^ 23 + 2 ^ 23 < posInf := by decide
@@ -105,7 +105,7 @@ theorem mantOf_le_first (c exp : Nat) (hc1 : 1 ≤ c) (hc2 : c ≤ c65408) (he :
     (by omega) (by omega)
   rw [show ((8 : Int) + 128).toNat = 136 from rfl] at hp
   unfold mantOf
-  exact castAddHalf_le _ 136 0 (2 ^ 23 + 2 ^ 13) 512 hp (by decide) (by decide) (by decide)
+  exact castAddHalf_le _ _ 136 0 (2 ^ 23 + 2 ^ 13) 512 hp (by decide) (by decide) (by decide)
     (by decide) (by decide) (by decide) (by decide) (by decide)
 
 /-- **second pass** (`exp` is the incremented exponent): `c · 2^(24−exp) < 256`, mantissa ≤ 256 -/
@@ -116,7 +116,7 @@ theorem mantOf_le_second (c exp : Nat) (hc1 : 1 ≤ c) (hc2 : c ≤ c65408) (he 
     (by omega) (by omega)
   rw [show ((7 : Int) + 128).toNat = 135 from rfl] at hp
   unfold mantOf
-  exact castAddHalf_le _ 135 0 (2 ^ 23 + 2 ^ 14) 256 hp (by decide) (by decide) (by decide)
+  exact castAddHalf_le _ _ 135 0 (2 ^ 23 + 2 ^ 14) 256 hp (by decide) (by decide) (by decide)
     (by decide) (by decide) (by decide) (by decide) (by decide)
 
 /-- **top exponent.**  With `exp = 31` the clamp to `65408 = 511·2^7` gives `c · 2^-7 ≤ 511`
@@ -142,7 +142,7 @@ theorem mantOf_le_top (c : Nat) (hc1 : 1 ≤ c) (hc2 : c ≤ c65408) :
       rw [show ((7 : Int) + 128).toNat = 135 from rfl] at this
       omega
   unfold mantOf
-  exact castAddHalf_le _ 135 0x7F8000 0xFFC000 511 hp (by decide) (by decide) (by decide)
+  exact castAddHalf_le _ _ 135 0x7F8000 0xFFC000 511 hp (by decide) (by decide) (by decide)
     (by decide) (by decide) (by decide) (by decide) (by decide)
 
 /-! ### the clamp and the maximum -/
